@@ -73,7 +73,7 @@ PROPS = {
                 quick=['std-lax', 'std-strict'], thorough=list(CONFIGS)),
     'C17': dict(workload='C17', oracle=['C17'], project=proj_identity,
                 quick=['std-lax', 'std-strict'], thorough=list(CONFIGS)),
-    'C15': dict(workload='C15', oracle=['C15'], project=proj_identity,
+    'C15': dict(miri=True, workload='C15', oracle=['C15'], project=proj_identity,
                 quick=['std-lax'], thorough=['std-lax', 'nostd-lax']),
     'C16': dict(workload='C16', oracle=['C16'], project=proj_kind_msg,
                 quick=['std-lax', 'std-strict'], thorough=list(CONFIGS)),
@@ -511,8 +511,32 @@ def run_check(pid, tier, only_cfgs=None, quiet=False):
                         stats['oracle_failures'] += 1
                 stats['raw_message_cases_compared'] = stats.get('raw_message_cases_compared', 0) + nraw
                 stats['oracle_checks'] += nraw
+    if spec.get('miri'):
+        miri_step(pid, stats, violations, build_errors)
     return finish(pid, tier, seed, spec, proof, stats, distinct, samples, cfgs, t0, violations, knowns, build_errors,
                   builds=builds, known=known)
+
+def miri_step(pid, stats, violations, build_errors):
+    """C15: the real `[T; N]` decoder under Miri (every N in a list, every failure position, error and
+    panic mode, zero-sized elements, truncated input).  Supports the correspondence only: Miri explores the
+    sampled executions for undefined behaviour and leaks; it is not a proof."""
+    env = dict(os.environ, CARGO_TARGET_DIR=os.path.join(ROOT, '.build', 'target-miri'), CARGO_NET_OFFLINE='true')
+    t = time.time()
+    rc, out = run(['cargo', '+nightly', 'miri', 'run'], cwd=os.path.join(ROOT, 'miri'), env=env, timeout=1800)
+    cases = [l for l in out.splitlines() if l.startswith('case ')]
+    stats['miri'] = dict(exit=rc, executions=len(cases), wall_s=round(time.time() - t, 1))
+    stats['oracle_checks'] += len(cases)
+    if rc == 0 and 'guard-miri: ok' in out:
+        log('%s miri: %d executions of the array decoder, no undefined behaviour, no leak' % (pid, len(cases)))
+        return
+    if 'Undefined Behavior' in out or 'panicked' in out or 'memory leaked' in out or 'assertion' in out:
+        last = cases[-1] if cases else 'case ?'
+        m = re.search(r'error: (Undefined Behavior[^\n]*|memory leaked[^\n]*)', out)
+        why = m.group(1) if m else (out.strip().splitlines() or ['?'])[-1]
+        violations.append(('miri', 'guard ' + last, 'under Miri: %s' % why[:400], 'impl-violates-property'))
+        stats['oracle_failures'] += 1
+    else:
+        build_errors.append(('miri', out[-2000:]))
 
 def finish(pid, tier, seed, spec, proof, stats, distinct, samples, cfgs, t0, violations, knowns, build_errors,
            builds=None, known=None, extra=None):
@@ -660,6 +684,19 @@ def replay(pid, path):
         print('replay file names no concrete case: ' + json.dumps(rp)[:500])
         return 1
     spec = PROPS[pid]
+    if cfg == 'miri':
+        stats, viol, berr = dict(oracle_checks=0, oracle_failures=0), [], []
+        miri_step(pid, stats, viol, berr)
+        for v in viol:
+            print('case : ' + v[1])
+            print('impl : ' + v[2])
+        for b in berr:
+            print(b[1])
+        if viol or berr:
+            print('VIOLATION property=%s replay=%s' % (pid, path))
+            return 1
+        print('the recorded case no longer fails')
+        return 0
     rc, out, binpath = build_harness(cfg.split(' ')[0])
     if rc != 0:
         print(out[-2000:])
